@@ -1,2 +1,13 @@
-pub mod hist;
 pub mod c01;
+pub mod c02;
+pub mod c03;
+pub mod hist;
+
+pub fn hist_prop(id: &str) -> Option<hist::HistProp> {
+    match id {
+        "C01" => Some(c01::prop()),
+        "C02" => Some(c02::prop()),
+        "C03" => Some(c03::prop()),
+        _ => None,
+    }
+}
